@@ -17,7 +17,7 @@ while args and args[0].startswith("--"):
         jobs = int(args.pop(0))
 only = args
 ROOT = os.path.join(VERIF, root)
-BASE = "/tmp/cr/" + root
+BASE = "/tmp/cr/" + os.path.basename(root.rstrip("/"))
 os.makedirs(BASE, exist_ok=True)
 def sh(*a, **k): return subprocess.run(a, stdout=subprocess.PIPE, stderr=subprocess.STDOUT, text=True, **k)
 head = sh("git", "-C", "/repo", "rev-parse", "HEAD").stdout.strip()
@@ -61,7 +61,7 @@ out = {}
 with cf.ThreadPoolExecutor(jobs) as ex:
     for sid, res in ex.map(run, ids):
         out[sid] = res
-json.dump(out, open("/tmp/cr/%s_result.json" % root, "w"), indent=1)
+json.dump(out, open("/tmp/cr/%s_result.json" % os.path.basename(root.rstrip("/")), "w"), indent=1)
 byrule = {}
 silent, loud, err = [], [], []
 for sid, v in sorted(out.items()):
